@@ -3,6 +3,7 @@ import QProofs.C16Sum
 import QProofs.C16Cond
 import QProofs.C16Gen
 import QProofs.C16Ens
+import QProofs.C16Lay
 import Mathlib.Tactic.FieldSimp
 /-!
 # C16 — property theorems (index maps, constructor normalisation)
@@ -223,23 +224,27 @@ multiplying by the marginal entry (= `s`) gives the joint entry back. -/
 theorem conditional_entry (p s : Rat) (hs : s ≠ 0) : s * (p / s) = p := by
   field_simp
 
-/-- C16.i `ProbDist` tuple access is row-major: for an in-range multi-index the entry returned is the one at the serial index
-`i₀·(n₁⋯n_k) + …`, i.e. the same entry the index maps of C16.a–d address (so `dist[(i,j,…)]`, `dist[serial]` and
-`ps.reshape(shape)[idx]` agree). -/
+/-- C16.i `ProbDist` tuple access is row-major: the model does what the code does — reshape, then index the leading axis, then the
+next one, … (`sliceGet`: index `i` selects the block `ps[i·∏rest : (i+1)·∏rest]`) — and for an in-range multi-index that iterated
+slicing returns the entry at the serial index `i₀·(n₁⋯n_k) + …`, i.e. the entry the index maps of C16.a–d address (so
+`dist[(i,j,…)]`, `dist[serial]` and `ps.reshape(shape)[idx]` agree). -/
 theorem probDistGet_row_major (ps : List Rat) (shape idx : List Nat) (hps : ps.length = prod shape)
     (hlen : shape.length = idx.length) (hr : ∀ p ∈ shape.zip idx, p.2 < p.1) :
     ∃ s, serialFromMulti shape idx = some s ∧ s < ps.length ∧ probDistGet ps shape idx = ps[s]? := by
-  obtain ⟨s, hs, hlt, _⟩ := multi_of_serial_of_multi shape idx hlen hr
-  refine ⟨s, hs, by omega, ?_⟩
+  refine ⟨_, serial_some shape idx hlen, by rw [hps]; exact val_lt' shape idx hlen hr, ?_⟩
   unfold probDistGet
   rw [if_neg (by omega), if_neg (by omega)]
-  have hany : ((shape.zip idx).any fun li => decide (li.1 ≤ li.2)) = false := by
-    rw [List.any_eq_false]
-    intro p hp
-    have := hr p hp
-    simp only [decide_eq_true_eq]
-    omega
-  simp [hany, hs]
+  exact sliceGet_eq_serial ps shape idx hlen hr
+
+/-- out-of-range or wrong-length tuples are rejected (IndexError), never wrapped into another entry -/
+theorem probDistGet_rejects (ps : List Rat) (l i : Nat) (ls is : List Nat) (hi : l ≤ i) :
+    probDistGet ps (l :: ls) (i :: is) = none := by
+  unfold probDistGet
+  split
+  · rfl
+  · split
+    · rfl
+    · simp [sliceGet, Nat.not_lt.mpr hi]
 
 -- non-vacuity: concrete instances of the hypotheses
 example : probDistGet [1/6, 1/6, 1/6, 1/12, 1/12, 1/3] [2, 3] [1, 2] = some (1/3) := by decide +kernel
@@ -257,7 +262,9 @@ exactly the entry of the marginal of the variables `idxs` that belongs to the mu
 entry of the joint equals marginal × conditional whenever that mass is non-zero
 (`conditional_entry`).  Unbounded in the number and sizes of the variables and in the number of
 conditioning variables.  (`_hlen` is the constructor's size guard; the identity itself does not
-depend on it.) -/
+depend on it.)  NOT covered by this theorem: conditioning lists given in another order (`[2, 0]`), which the code accepts and
+which `marginalize` would list in ascending variable order — those are compared with the implementation by the correspondence
+check (every permutation of every subset) and the oracle only. -/
 theorem conditional_mass_eq_marginal_multi (ps : List Rat) (shape idxs vals : List Nat)
     (_hlen : ps.length = prod shape) (hasc : idxs.Pairwise (· < ·))
     (hr : ∀ i ∈ idxs, i < shape.length) (hv : vals ∈ allMulti (project shape idxs)) :
@@ -299,6 +306,126 @@ example : marginalRaw [1/16, 1/16, 1/8, 1/4, 1/16, 3/16, 1/8, 1/8] [2, 2, 2] [0,
 example : conditionalRaw [1/16, 1/16, 1/8, 1/4, 1/16, 3/16, 1/8, 1/8] [2, 2, 2] [0, 2] [1, 0]
     = ([2], [1/16, 1/8]) := by decide +kernel
 
+/-! ## the enumeration behind marginals and conditionals IS the serial layout of C16.a–d -/
+
+/-- C16.m `marginalRaw` / `conditionalRaw` pair the probability vector with `allMulti shape`; that enumeration is the row-major
+layout: its `k`-th element is the multi-index of serial index `k` (so the sums and slices of C16.f–h are taken over the very
+positions the index maps address), for every shape. -/
+theorem allMulti_is_serial_layout (shape : List Nat) (k : Nat) (hk : k < prod shape) :
+    (allMulti shape)[k]? = multiFromSerial shape k ∧ (allMulti shape).length = prod shape := by
+  obtain ⟨mi, h1, h2, h3, h4⟩ := allMulti_serial shape k hk
+  obtain ⟨s, hs, _, hm⟩ := multi_of_serial_of_multi shape mi h2 h3
+  have : s = k := Option.some.inj (hs.symm.trans h4)
+  subst this
+  exact ⟨h1.trans hm.symm, allMulti_length shape⟩
+
+example : (allMulti [2, 3])[4]? = some [1, 1] ∧ multiFromSerial [2, 3] 4 = some [1, 1] := by decide
+
+/-! ## what the constructor stores -/
+
+/-- C16.e (entries) a successfully constructed distribution stores the thresholded entries — unchanged when nothing was below the
+threshold or everything was, otherwise divided by their sum — in the input order; nothing else. -/
+theorem ctor_entries (ps : List Rat) (shape : List Nat) (eps : Rat) (d : Dist)
+    (h : ctor ps shape eps = .ok d) :
+    d.ps = (if (!(ps.all fun p => p < eps) && ps.any fun p => p < eps)
+              then (zeroedOf ps eps).map (· / rsum (zeroedOf ps eps)) else zeroedOf ps eps) ∧
+    d.isZero = ps.all fun p => p < eps := by
+  unfold ctor at h
+  simp only [bind, Except.bind, pure, Except.pure] at h
+  repeat (split at h <;> try cases h)
+  all_goals exact ⟨rfl, rfl⟩
+
+/-- liveness, identity case: non-negative entries none of which is below the threshold, matching the shape and summing to 1
+(within 1e-8) are accepted and stored unchanged. -/
+theorem ctor_identity (ps : List Rat) (shape : List Nat) (eps : Rat)
+    (hshape : shape ≠ []) (hlen : ps.length = prod shape)
+    (hge : ∀ p ∈ ps, eps ≤ p) (hnn : ∀ p ∈ ps, 0 ≤ p) (hne : ps ≠ [])
+    (hsum : rabs (rsum ps - 1) ≤ epsValidate) :
+    ctor ps shape eps = .ok ⟨ps, shape, false⟩ := by
+  have hz : zeroedOf ps eps = ps := by
+    unfold zeroedOf
+    conv => rhs; rw [← List.map_id ps]
+    apply List.map_congr_left
+    intro p hp
+    simp [not_lt.mpr (hge p hp)]
+  have hall : (ps.all fun p => decide (p < eps)) = false := by
+    obtain ⟨p, hp⟩ := List.exists_mem_of_ne_nil ps hne
+    rw [List.all_eq_false]
+    exact ⟨p, hp, by simpa using hge p hp⟩
+  have hany : (ps.any fun p => decide (p < eps)) = false := by
+    rw [List.any_eq_false]
+    intro p hp
+    simpa using hge p hp
+  have hneg : (ps.any fun p => decide (p < 0) && !decide (rabs p ≤ epsValidate)) = false := by
+    rw [List.any_eq_false]
+    intro p hp
+    simp [not_lt.mpr (hnn p hp)]
+  have hv1 : validate ps false = .ok () := by simp [validate, hneg]
+  have hv2 : validate ps true = .ok () := by simp [validate, hneg, hsum]
+  unfold ctor
+  have hz' : (ps.map fun p => if p < eps then 0 else p) = ps := hz
+  simp only [bind, Except.bind, pure, Except.pure, hv1, hall, hany, hz', List.isEmpty_iff, hshape, hlen,
+    Bool.not_false, Bool.and_false, Bool.false_eq_true, if_false, if_true, ne_eq, not_true_eq_false, hv2]
+
+example : ctor [1/2, 1/4, 1/4] [3] epsValidate = .ok ⟨[1/2, 1/4, 1/4], [3], false⟩ :=
+  ctor_identity _ _ _ (by decide) (by decide) (by decide +kernel) (by decide +kernel) (by decide) (by decide +kernel)
+
+/-- C16.f/l `marginalize` returns exactly the constructor's result on the raw sums over the removed variables, arranged by
+ascending retained variable; its only other outcomes are the two validation errors. -/
+theorem marginalize_is_ctor_of_raw (d : Dist) (remain : List Nat) :
+    marginalize d remain = .error .outOfRange ∨ marginalize d remain = .error .duplicate ∨
+    marginalize d remain = ctor (marginalRaw d.ps d.shape remain).2 (marginalRaw d.ps d.shape remain).1 epsValidate := by
+  unfold marginalize
+  simp only [bind, Except.bind]
+  cases hv : margValidate d.shape.length remain [] with
+  | ok u => right; right; rfl
+  | error e =>
+    have : ∀ (l seen : List Nat) (e : Err), margValidate d.shape.length l seen = .error e → e = .outOfRange ∨ e = .duplicate := by
+      intro l
+      induction l with
+      | nil => intro seen e h; simp [margValidate] at h
+      | cons i rest ih =>
+        intro seen e h
+        unfold margValidate at h
+        split at h
+        · injection h with h; exact Or.inl h.symm
+        · split at h
+          · injection h with h; exact Or.inr h.symm
+          · exact ih _ _ h
+    rcases this _ _ _ hv with rfl | rfl
+    · left; rfl
+    · right; left; rfl
+
+/-- C16.g/l `conditionalize`, once its arguments pass validation and the slice has non-zero mass `s`, returns exactly the
+constructor's result on the slice divided by `s`. -/
+theorem conditionalize_is_ctor_of_scaled_raw (d : Dist) (idxs vals : List Nat) (d' : Dist)
+    (h : conditionalize d idxs vals = .ok d') :
+    rsum (conditionalRaw d.ps d.shape idxs vals).2 ≠ 0 ∧
+    ctor ((conditionalRaw d.ps d.shape idxs vals).2.map (· / rsum (conditionalRaw d.ps d.shape idxs vals).2))
+      (conditionalRaw d.ps d.shape idxs vals).1 epsValidate = .ok d' := by
+  unfold conditionalize at h
+  simp only [bind, Except.bind] at h
+  repeat (split at h <;> try cases h)
+  rename_i hs
+  exact ⟨hs, h⟩
+
+/-- joint = marginal × conditional, entrywise: multiplying the renormalised slice by the slice mass `s` (which is the marginal
+probability of the conditioning event, `conditional_mass_eq_marginal(_multi)`) gives back the joint entries of the slice, in order. -/
+theorem conditional_times_marginal (raw : List Rat) (s : Rat) (hs : s ≠ 0) :
+    (raw.map (· / s)).map (s * ·) = raw := by
+  rw [List.map_map]
+  conv => rhs; rw [← List.map_id raw]
+  apply List.map_congr_left
+  intro p _
+  simp only [Function.comp, id]
+  field_simp
+
+example : ∃ d, ctor [1/1000000000, 0] [2] epsValidate = .ok d ∧ d.isZero = true :=
+  ⟨⟨[0, 0], [2], true⟩, by decide +kernel, rfl⟩
+example : (marginalRaw [1/6, 1/6, 1/6, 1/12, 1/12, 1/3] [2, 3] [1]).2[2]?
+    = some (rsum (conditionalRaw [1/6, 1/6, 1/6, 1/12, 1/12, 1/3] [2, 3] [1] [2]).2) :=
+  conditional_mass_eq_marginal _ [2, 3] 1 2 (by decide +kernel) (by decide) (by decide)
+
 /-! ## marginals and conditionals "stay normalised with the documented zero threshold" -/
 
 /-- C16.l whatever `marginalize` returns went through the constructor with the documented default threshold: it is either the flagged
@@ -312,10 +439,8 @@ theorem marginalize_normalised (d : Dist) (remain : List Nat) (d' : Dist)
   simp only [bind, Except.bind] at h
   split at h
   · cases h
-  · split at h
-    · cases h
-    · obtain ⟨h1, h2, h3⟩ := ctor_ok _ _ _ _ h
-      refine ⟨by rw [h1]; rfl, by rw [h2, h1], h3⟩
+  · obtain ⟨h1, h2, h3⟩ := ctor_ok _ _ _ _ h
+    refine ⟨by rw [h1]; rfl, by rw [h2, h1], h3⟩
 
 /-- C16.l the same for `conditionalize`: a returned conditional is the flagged zero distribution or passes the sum check, over the
 variables that were not conditioned on. -/
